@@ -49,9 +49,12 @@ Oracle (after every event, over the whole history):
 
 Weaker readings taken (soundness):
  * an original is "replaced" iff its occurrence's text changed or mapping() lists it; an original that is
-   left alone and not listed (a host outside the obfuscated domain such as host2.example.com, a MAC that
-   the nested-obfuscation guard skips) receives no substitute and is therefore outside (2) and (3) - even
-   when its text coincides with a substitute issued to somebody else (counted, not alarmed);
+   left alone and not listed is outside (3). For injectivity (2) an original that is subject to obfuscation - every
+   IPv4 address, every name of the obfuscated domain - and is left as it is has ITSELF as its substitute (so a later
+   line carrying 10.230.230.1 unchanged while another address was issued 10.230.230.1 violates (2)); only a host name
+   outside the obfuscated domain (host2.example.com, the hashed name of the system fed back) is no original for the
+   obfuscator and stays outside (2) even when its text coincides with an issued substitute (counted, not alarmed);
+   MACs / IPv6 that the nested-obfuscation guard skips are outside (2) anyway (not demanded for those kinds);
  * the system's short name and its FQDN denote one host: they are kept as two originals for (1), are
    exempt from (2) as a pair, and (3)/(4) accept the short name's pair under either spelling;
  * spellings: the textual original is the unit for mapping()/reports (each spelling is listed on its own), but for
@@ -675,7 +678,11 @@ def oracle(obs, ev, out, maps):
             if sub == tok and not _listed_for(maps, kind, tok):
                 if tok in issued:
                     info["unreplaced_equal_to_substitute"] += 1
-                continue                    # left alone and unlisted: receives no substitute (weak reading)
+                # left alone and unlisted. An original that is SUBJECT to obfuscation (any IPv4 address, a name of
+                # the obfuscated domain) and is left as it is has itself as its substitute and takes part in (2);
+                # a host name outside the obfuscated domain is not an original for the obfuscator at all (weak reading)
+                if not (kind == "ip" or tok == SHORT or tok.endswith(DOMAIN_SUFFIX)):
+                    continue
             bysub.setdefault(sub, set()).add(tok)
         for sub in sorted(bysub):
             toks = bysub[sub]
